@@ -83,9 +83,10 @@ def gen_ast(rng):
     post = None
     if rng.random() < 0.12:
         post = {"tag": t(), "src": f"%t{rng.randrange(ntmp)}"}  # a temporary of the loop is read once more behind the loop
+    alloc_in_loop = rng.random() < 0.08  # the temporaries are allocated inside the loop body (among the index ops)
     lb_shared = rng.random() < 0.15  # the constant that is the lower bound is also used inside the body (when it is 0)
     ring = rng.choice([0, 0, 0, 3, 4])  # the side output goes to a ring of `ring` slots: an arith.remui among the index ops
-    return {"nst": nst, "tmps": ntmp, "skip": skip is not None, "tail": tail, "ring": ring, "post": post, "alias": alias, "lb_shared": lb_shared, "const_bounds": rng.random() < 0.75, "stages": stages}
+    return {"nst": nst, "tmps": ntmp, "skip": skip is not None, "tail": tail, "ring": ring, "post": post, "alias": alias, "lb_shared": lb_shared, "alloc_in_loop": alloc_in_loop and alias is None and post is None, "const_bounds": rng.random() < 0.75, "stages": stages}
 
 
 def op_text(o):
@@ -119,8 +120,9 @@ def emit(ast, env=None) -> str:
         lb, ub, st = "%lb", "%ub", "%st"
     else:
         lb, ub, st = "%lba", "%uba", "%sta"
-    for t in range(ast["tmps"]):
-        e(f"    %t{t} = memref.alloc() {{vsite = {t} : i64}} : {T1}")
+    if not ast.get("alloc_in_loop"):
+        for t in range(ast["tmps"]):
+            e(f"    %t{t} = memref.alloc() {{vsite = {t} : i64}} : {T1}")
     if ast.get("alias") is not None:
         j = ast["alias"]
         e(f"    %t{j}v = memref.subview %t{j}[0][{E}][1] : {T1} to {TV}")
@@ -135,6 +137,9 @@ def emit(ast, env=None) -> str:
         e("      %off = arith.addi %off0, %lb : index")
     else:
         e("      %off = arith.muli %i, %cE : index")
+    if ast.get("alloc_in_loop"):
+        for t in range(ast["tmps"]):
+            e(f"      %t{t} = memref.alloc() {{vsite = {t} : i64}} : {T1}")
     e(f"      %sa = memref.subview %A[%off][{E}][1] : {BIG} to {TS}")
     e(f"      %so = memref.subview %O[%off][{E}][1] : {BIG} to {TS}")
     if ast.get("ring"):
@@ -187,6 +192,8 @@ def shrink_ast(ast):
         yield dict(ast, post=None)
     if ast.get("lb_shared"):
         yield dict(ast, lb_shared=False)
+    if ast.get("alloc_in_loop"):
+        yield dict(ast, alloc_in_loop=False)
     for s_, ops_ in enumerate(ast["stages"]):
         for j_, o_ in enumerate(ops_):
             if o_.get("scalar"):
